@@ -19,7 +19,7 @@ EXPLANATION = (
     "only where the order facts give day_submerged <= LagAer (strict guard before the integer increment), so it is >= 0. C04.e: the net-irrigation refill raises (or lowers) each compartment towards the threshold of its own layer - "
     "the per-layer threshold is recomputed from the compartment's own wilting point / field capacity at every layer change and the "
     "root-zone-average threshold computed before the loop cannot reach the refill (reaching definitions + the layer-change idiom) - "
-    "the structural half of the non-negativity of the net requirement. C04.f: every definition of the curve number reaching the retention formula S = 25400/cn - 254 is a clamp to at most 100, so S >= 0 and 0 <= runoff <= rain. C04.g (structural half of Es <= EsPot): soil_evaporation's demand ledger - remaining demand + actual evaporation is invariant from its definition to the return (linear template), and every stage potential is defined as min(remaining demand, .) or as a per-sub-step fraction of it. C04.h (structural half of Tr <= TrPot): the root-extraction loop's ledger - remaining demand + actual transpiration invariant through the loop (induction), and the per-compartment sink taken off the ledger has passed the cap against the remaining demand expressed as a water content of the same compartment (later definitions only lower it). NOT decided: the numeric inequalities themselves, non-negativity of DeepPerc / CR / GwIn / Runoff / Es "
+    "the structural half of the non-negativity of the net requirement. C04.f: every definition of the curve number reaching the retention formula S = 25400/cn - 254 is a clamp to at most 100, so S >= 0 and 0 <= runoff <= rain. C04.g (structural half of Es <= EsPot): soil_evaporation's demand ledger - remaining demand + actual evaporation is invariant from its definition to the return (linear template), and every stage potential is defined as min(remaining demand, .) or as a per-sub-step fraction of it. C04.h (structural half of Tr <= TrPot): the root-extraction loop's ledger - remaining demand + actual transpiration invariant through the loop (induction), and the per-compartment sink taken off the ledger has passed the cap against the remaining demand expressed as a water content of the same compartment (later definitions only lower it). C04.i (structural half of DeepPerc >= 0): every comparison in drainage that involves a field capacity uses the adjusted field capacity of the day; the plain value appears in arithmetic only. NOT decided: the numeric inequalities themselves, non-negativity of DeepPerc / CR / GwIn / Runoff / Es "
     "(numeric, depend on run-time water contents).")
 
 
@@ -134,6 +134,7 @@ def run(chk, prog, tier):
     rule_f(chk, prog)
     rule_g(chk, prog)
     rule_h(chk, prog)
+    rule_i(chk, prog)
     chk.assume("A-1")
     chk.exhaustive = True
 
@@ -419,6 +420,49 @@ def rule_h(chk, prog):
                 chk.violation("C04.h", where, cons, "this definition reaches the ledger update without passing the comparison with the remaining demand",
                               loc=tr.loc(da))
     chk.floor("C04.h", n, 4, "definitions of the sink reaching the ledger update")
+
+
+def rule_i(chk, prog):
+    """C04.i (deep percolation is non-negative - structural half): in drainage the drainage ability is switched off, and its amount clamped, by
+    comparing the water content with the *adjusted* field capacity of the day (th - dthdt >= th_fc_Adj keeps dthdt >= 0). Every comparison
+    in drainage that involves a field-capacity quantity uses the adjusted one (the formal fed from the state's th_fc_Adj); the plain
+    field capacity of the profile appears in arithmetic only. A test against the plain value lets a compartment between the two enter
+    the drainage branch, where the clamp makes dthdt negative: water is created and the cumulative drainage goes negative."""
+    from ..rdef import flow_of, ENTRY
+    from ..model import walk_no_nested, AnalysisError
+    from ..common import STEP_FN
+    dr = prog.find_func("drainage")
+    chk.fn(dr.key)
+    where = f"{dr.module}:{dr.qualname}"
+    step = prog.func(STEP_FN)
+    call = [c for c, t in prog.calls_in(step) if getattr(t, "key", None) == dr.key][0]
+    f_adj = next((dr.params[i] for i, a in enumerate(call.args) if isinstance(a, ast.Attribute) and a.attr == "th_fc_Adj"), None)
+    if f_adj is None:
+        raise AnalysisError("drainage no longer receives the state's adjusted field capacity")
+    flow = flow_of(dr)
+    def plain_fc(e, nid):
+        """does e denote the profile's (unadjusted) field capacity?"""
+        if isinstance(e, ast.Subscript) and isinstance(e.value, ast.Attribute) and e.value.attr == "th_fc":
+            return True
+        if isinstance(e, ast.Name) and e.id != f_adj:
+            ds = flow.defs_reaching(e.id, nid)
+            return bool(ds) and all(d != ENTRY and isinstance(flow.cfg.nodes[d].ast, ast.Assign)
+                                    and isinstance(flow.cfg.nodes[d].ast.value, ast.Subscript) and isinstance(flow.cfg.nodes[d].ast.value.value, ast.Attribute)
+                                    and flow.cfg.nodes[d].ast.value.value.attr == "th_fc" for d in ds)
+        return False
+    n_adj = 0
+    for n in flow.cfg.live_nodes():
+        if n.kind != "test" or not isinstance(n.ast, ast.Compare):
+            continue
+        ops = [n.ast.left] + list(n.ast.comparators)
+        if any(any(isinstance(x, ast.Name) and x.id == f_adj for x in ast.walk(o)) for o in ops):
+            n_adj += 1
+            chk.ok("C04.i", where, norm(n.ast)[:80], "compared with the adjusted field capacity", nontrivial=False)
+        bad = [o for o in ops if any(plain_fc(x, n.id) for x in ast.walk(o))]
+        if bad:
+            chk.violation("C04.i", where, norm(n.ast)[:80], f"a drainage decision compares with the plain field capacity `{norm(bad[0])}` instead of the adjusted one: with a "
+                          "shallow water table a compartment between the two drains a negative amount and deep percolation becomes negative", loc=dr.loc(n.ast))
+    chk.floor("C04.i", n_adj, 10, "comparisons with the adjusted field capacity in drainage")
 
 
 def rule_d(chk, prog):
